@@ -18,7 +18,7 @@ from lib import pins
 
 LEVEL = "proof"
 RULE = ("1-D and 2-D WCSs with a box, each with its analytic inverse and with it removed (inverse-less identity wrapper => iterative "
-        "path); world points from pixels inside, exactly on the edges, outside, plus NaN; fill in {default, NaN, finite, inf}; "
+        "path); world points from pixels inside, exactly on the edges, outside, plus NaN; fill in {default, NaN, finite, inf, 0.0, int 0}; "
         "with_bounding_box in {default, True, False}; scalar and array calls. non-trivial = pixel on an edge or outside; "
         "distinct = (wcs, path, pixel, fill, flag)")
 ASSUMPTIONS = [
@@ -109,7 +109,7 @@ def run(ctx):
                     problems.append((f"{n}-D {'analytic' if analytic else 'iterative'} inversion raised {type(e).__name__}: {e}",
                                      {"dim": n, "pixel": pix, "how": "WCS with Polynomial1D(1,c0=0,c1=1)|Scale|Shift (no analytic inverse); w.invert(world)"}, key))
                     continue
-                for fill in (None, -999.25, math.inf) if not ctx.quick else (None, rng.choice([-999.25, math.inf])):
+                for fill in (None, -999.25, math.inf, 0.0, 0) if not ctx.quick else (None, rng.choice([-999.25, math.inf, 0.0, 0])):
                     for wb in (None, True, False) if not ctx.quick else (None, rng.choice([True, False])):
                         kw = {}
                         if fill is not None:
